@@ -172,7 +172,7 @@ def printers(ctx, rep, T):
                                 part = c[1].split('.')[-1]
                                 bad_via = []
                                 for v in c[2]:
-                                    if v == 'replace':
+                                    if v.startswith('replace'):
                                         continue  # quote escaping inside a string literal
                                     if v not in cache:
                                         cache[v] = transforms.summarize(ctx, v)
